@@ -16,15 +16,17 @@ enum Fmt { Sem, Pep }
 fn sem_ok(t: &str) -> bool { rsv::accepts(t) && rsv::parse(t).map(|p| p.core.iter().all(|n| rsv::fits_u64(n))).unwrap_or(false) }
 fn pep_ok(t: &str) -> bool { rp::parse(t).map(|p| p.numbers().iter().all(|n| rp::fits_u32(n))).unwrap_or(false) }
 
-/// valid tags of one commit under the input format, with the format they are compared in
-fn valid_tags<'a>(tags: &[&'a Tag], input: &str) -> (Vec<&'a Tag>, Fmt) {
+/// valid tags of one commit per format the input format admits. In auto mode the statement does not say how the
+/// format is detected (the pinned code takes the format accepting more of the commit's tags, SemVer on ties), so a tag
+/// is acceptable when it is a highest valid tag of its commit under *either* format: only what the statement fixes is
+/// demanded.
+fn valid_tags<'a>(tags: &[&'a Tag], input: &str) -> Vec<(Vec<&'a Tag>, Fmt)> {
     let sem: Vec<&Tag> = tags.iter().copied().filter(|t| sem_ok(&t.name)).collect();
     let pep: Vec<&Tag> = tags.iter().copied().filter(|t| pep_ok(&t.name)).collect();
-    match input {
-        "semver" => (sem, Fmt::Sem),
-        "pep440" => (pep, Fmt::Pep),
-        _ => if pep.len() > sem.len() { (pep, Fmt::Pep) } else { (sem, Fmt::Sem) },
-    }
+    let mut v = vec![];
+    if input != "pep440" && !sem.is_empty() { v.push((sem, Fmt::Sem)); }
+    if input != "semver" && !pep.is_empty() { v.push((pep, Fmt::Pep)); }
+    v
 }
 
 fn cmp_tag(a: &str, b: &str, f: Fmt) -> Ordering {
@@ -46,8 +48,8 @@ fn judge(ctx: &Ctx, s: &StateRef, input: &str, st: &mut Stats) -> Option<(String
     let hc = head_commit(s);
     let reach = s.shape.ancestors_or_self(hc);
     // nearest validly tagged commits
-    let per_commit: Vec<(usize, Vec<&Tag>, Fmt)> = reach.iter().map(|&c| { let ts: Vec<&Tag> = s.tags.iter().filter(|t| t.target == c).collect(); let (v, f) = valid_tags(&ts, input); (c, v, f) }).filter(|x| !x.1.is_empty()).collect();
-    let nearest: Vec<&(usize, Vec<&Tag>, Fmt)> = per_commit.iter().filter(|(c, _, _)| !per_commit.iter().any(|(d, _, _)| d != c && s.shape.ancestors_or_self(*d).contains(c))).collect();
+    let per_commit: Vec<(usize, Vec<(Vec<&Tag>, Fmt)>)> = reach.iter().map(|&c| { let ts: Vec<&Tag> = s.tags.iter().filter(|t| t.target == c).collect(); (c, valid_tags(&ts, input)) }).filter(|x| !x.1.is_empty()).collect();
+    let nearest: Vec<&(usize, Vec<(Vec<&Tag>, Fmt)>)> = per_commit.iter().filter(|(c, _)| !per_commit.iter().any(|(d, _)| d != c && s.shape.ancestors_or_self(*d).contains(c))).collect();
     let out = match r {
         Err(p) => { ctx.violation(&format!("panic@{}", p.file()), key, case, format!("{} at {}", p.message, p.location)); return None; }
         Ok(Res::Ok(o)) => o,
@@ -70,10 +72,11 @@ fn judge(ctx: &Ctx, s: &StateRef, input: &str, st: &mut Stats) -> Option<(String
             if !reach.contains(&t.target) { diffs.push(("base_tag_unreachable", format!("tag {tag} is on commit {} which is not reachable from HEAD (commit {hc})", t.target))); }
             else {
                 match nearest.iter().find(|n| n.0 == t.target) {
-                    None => diffs.push(("base_tag_not_nearest", format!("tag {tag} (commit {}) is not on a nearest validly tagged commit; nearest: {:?}", t.target, nearest.iter().map(|n| (n.0, n.1.iter().map(|t| t.name.as_str()).collect::<Vec<_>>())).collect::<Vec<_>>()))),
+                    None => diffs.push(("base_tag_not_nearest", format!("tag {tag} (commit {}) is not on a nearest validly tagged commit; nearest: {:?}", t.target, nearest.iter().map(|n| (n.0, n.1.iter().flat_map(|f| f.0.iter().map(|t| t.name.as_str())).collect::<Vec<_>>())).collect::<Vec<_>>()))),
                     Some(n) => {
-                        if !n.1.iter().any(|x| x.name == tag) { diffs.push(("base_tag_not_valid_for_format", format!("tag {tag} is not valid under the format in effect"))); }
-                        else if n.1.iter().any(|x| cmp_tag(&x.name, &tag, n.2) == Ordering::Greater) { diffs.push(("base_tag_not_highest", format!("tag {tag} chosen although commit {} also carries {:?}", t.target, n.1.iter().map(|t| t.name.as_str()).collect::<Vec<_>>()))); }
+                        let fmts: Vec<&(Vec<&Tag>, Fmt)> = n.1.iter().filter(|(ts, _)| ts.iter().any(|x| x.name == tag)).collect();
+                        if fmts.is_empty() { diffs.push(("base_tag_not_valid_for_format", format!("tag {tag} is not valid under the format in effect"))); }
+                        else if fmts.iter().all(|(ts, f)| ts.iter().any(|x| cmp_tag(&x.name, &tag, *f) == Ordering::Greater)) { diffs.push(("base_tag_not_highest", format!("tag {tag} chosen although commit {} also carries {:?}", t.target, fmts.iter().flat_map(|f| f.0.iter().map(|t| t.name.as_str())).collect::<Vec<_>>()))); }
                     }
                 }
                 let want_dist = reach.difference(&s.shape.ancestors_or_self(t.target)).count() as u64;
@@ -333,7 +336,7 @@ fn main() {
     cov.evaluations = all.get("evaluations") + all.get("render_evaluations");
     cov.traces_validated = all.get("states");
     cov.distinct_nontrivial = all.get("tagged_evaluations");
-    cov.rule = format!("layer A: BFS over commit / branch&checkout / checkout / merge(ff or true merge) from a one-commit repository, commits <= {nc}, extra branches <= {nb}: {} distinct shapes ({} used{}), {} explorer transitions; layer B: every placement of <= {tmax} tags from {:?} on any commits x HEAD at every branch tip and detached at every commit x date modes (increasing; decreasing, zig-zag and all-equal for merge shapes); layer C: every subset of <= {max_subset} of 8 names {:?} on one commit x 2 HEAD positions x 3 input formats; layer D: 15 work-tree states x {} baseline repositories; layer E: 11 branch names (with '/', '.', non-ASCII, equal to a version tag / a non-version tag / a ref-namespace word) x a tag of the same short name (absent, lightweight or annotated, on the middle commit or the tip) x HEAD on that branch / the other branch / detached x 3 input formats. Every state is materialised in real git by fast-import, conformance-checked with `git log --all` / `for-each-ref` / `symbolic-ref` / `status --porcelain=v2`, and judged against R-GIT (nearest validly tagged commit, highest tag under R-SV / C11 order with the majority rule in auto mode, distance = |reach(HEAD) minus reach(tag)|, dirty, branch, hashes, times). non-trivial = evaluations that have a valid reachable tag", all_shapes.len(), shapes.len(), if quick { ": all with <= 3 commits plus the 4-commit merge shapes" } else { "" }, shape_transitions, alpha.iter().map(|a| a.0).collect::<Vec<_>>(), names8.iter().map(|a| a.0).collect::<Vec<_>>(), baselines.len());
+    cov.rule = format!("layer A: BFS over commit / branch&checkout / checkout / merge(ff or true merge) from a one-commit repository, commits <= {nc}, extra branches <= {nb}: {} distinct shapes ({} used{}), {} explorer transitions; layer B: every placement of <= {tmax} tags from {:?} on any commits x HEAD at every branch tip and detached at every commit x date modes (increasing; decreasing, zig-zag and all-equal for merge shapes); layer C: every subset of <= {max_subset} of 8 names {:?} on one commit x 2 HEAD positions x 3 input formats; layer D: 15 work-tree states x {} baseline repositories; layer E: 11 branch names (with '/', '.', non-ASCII, equal to a version tag / a non-version tag / a ref-namespace word) x a tag of the same short name (absent, lightweight or annotated, on the middle commit or the tip) x HEAD on that branch / the other branch / detached x 3 input formats. Every state is materialised in real git by fast-import, conformance-checked with `git log --all` / `for-each-ref` / `symbolic-ref` / `status --porcelain=v2`, and judged against R-GIT (nearest validly tagged commit, highest tag under R-SV / C11 order (auto mode: highest under either format that accepts it), distance = |reach(HEAD) minus reach(tag)|, dirty, branch, hashes, times). non-trivial = evaluations that have a valid reachable tag", all_shapes.len(), shapes.len(), if quick { ": all with <= 3 commits plus the 4-commit merge shapes" } else { "" }, shape_transitions, alpha.iter().map(|a| a.0).collect::<Vec<_>>(), names8.iter().map(|a| a.0).collect::<Vec<_>>(), baselines.len());
     cov.exhaustive = !was_capped;
     cov.samples = vec![json!({"ops":["branch b1","commit","checkout main","commit","merge b1"],"dates":"decreasing","tags":["v2.0.0@1","v1.0.0@0"],"head":"main"}), json!({"one_commit_tags":["v1.0.0","1.1.0rc1","1.1.0.post1"],"input_format":"auto"}), json!({"worktree":"IgnoredOnly","head":"detached"})];
     cov.set("clause_counts", all.to_json());
